@@ -12,6 +12,8 @@ AXIOM_WHITELIST = {
     # standard-library axioms that R-instantiated theorems may depend on (DESIGN.md §3)
     "ClassicalDedekindReals.sig_forall_dec", "ClassicalDedekindReals.sig_not_dec",
     "FunctionalExtensionality.functional_extensionality_dep", "Classical_Prop.classic",
+    # the reals as a mathcomp choiceType (C15 determinant step, Proofs/FlowLogDet.v): the standard library's description axiom
+    "ClassicalEpsilon.constructive_indefinite_description",
 }
 FORBIDDEN = re.compile(r"\b(Admitted|admit|Axiom|Axioms|Parameter|Parameters|Conjecture|Conjectures|"
                        r"Admit Obligations|bypass_check|native_compute)\b|Unset Guard|Unset Positivity|"
